@@ -261,3 +261,17 @@ func buildExample(src string) (func(name string) *ssa.Function, error) {
 		return nil
 	}, nil
 }
+
+// typecheckExample parses and type-checks a self-contained example.
+func typecheckExample(src string) (*types.Info, []*ast.File, error) {
+	fset := token.NewFileSet()
+	f, err := parser.ParseFile(fset, "example.go", src, 0)
+	if err != nil {
+		return nil, nil, err
+	}
+	info := &types.Info{Types: map[ast.Expr]types.TypeAndValue{}, Defs: map[*ast.Ident]types.Object{}, Uses: map[*ast.Ident]types.Object{}, Selections: map[*ast.SelectorExpr]*types.Selection{}}
+	if _, err := (&types.Config{}).Check("example", fset, []*ast.File{f}, info); err != nil {
+		return nil, nil, err
+	}
+	return info, []*ast.File{f}, nil
+}
